@@ -28,8 +28,7 @@ CONSTANTS MaxN,        \* instances 1..n, n \in NSet
           NSet,
           MaxZ,        \* at most this many zones (zone-aware mode)
           Modes,       \* subset of {"default", "zone"}
-          Minimizes,   \* subset of BOOLEAN : DoUntilQuorumConfig.MinimizeRequests
-          Hedges,      \* subset of BOOLEAN : HedgingDelay > 0
+          MinHedge,    \* subset of 0..3: bit 0 = MinimizeRequests, bit 1 = HedgingDelay > 0
           Terminals,   \* subset of BOOLEAN : IsTerminalError # nil
           NoCancels    \* subset of BOOLEAN : TRUE = ...WithoutSuccessfulContextCancellation called directly
 
@@ -79,10 +78,10 @@ ZoneAssigns(n) == {f \in [1..n -> 1..MaxZ] : RGS(n, f)}
 NZ(n, f) == Cardinality({f[i] : i \in 1..n})
 
 CfgsFor(n, m, f) ==
-  {[n |-> n, zone |-> f, nz |-> NZ(n, f), mode |-> m, tol |-> t, minimize |-> mi,
-    hedge |-> h, terminal |-> te, nocancel |-> nc] :
+  {[n |-> n, zone |-> f, nz |-> NZ(n, f), mode |-> m, tol |-> t, minimize |-> (mh % 2 = 1),
+    hedge |-> (mh \div 2 = 1), terminal |-> te, nocancel |-> nc] :
       t \in 0..(IF m = "zone" THEN NZ(n, f) ELSE n),
-      mi \in Minimizes, h \in Hedges, te \in Terminals, nc \in NoCancels}
+      mh \in MinHedge, te \in Terminals, nc \in NoCancels}
 ZoneChoices(n, m) == IF m = "zone" THEN ZoneAssigns(n) ELSE {[i \in 1..n |-> 1]}
 Cfgs == UNION {UNION {UNION {CfgsFor(n, m, f) : f \in ZoneChoices(n, m)} : m \in Modes} : n \in NSet}
 
@@ -117,18 +116,23 @@ NoRet == [kind |-> "none", set |-> {}, cls |-> "-", inst |-> 0]
 (* startMinimumRequests and the spawning of the n goroutines.  With         *)
 (* minimisation the held-back instances / zones (and their release order)   *)
 (* are an existential choice: rand.Perm / rand.Shuffle / the ZoneSorter.    *)
-InitCfg(c) ==
+\* the possible contents of pendingInstances / pendingZones after startMinimumRequests
+HeldChoices(c) ==
+  LET zm   == c.mode = "zone"
+      minZ == Max2(c.nz - c.tol, 0)
+      k    == IF zm THEN c.nz - minZ ELSE Min2(c.tol, c.n)
+  IN IF c.minimize THEN InjSeqs(IF zm THEN 1..c.nz ELSE 1..c.n, k) ELSE {<<>>}
+
+InitCfgP(c, p) ==
   LET I    == 1..c.n
       zm   == c.mode = "zone"
       minZ == Max2(c.nz - c.tol, 0)
-      k    == IF zm THEN c.nz - minZ ELSE Min2(c.tol, c.n)
       already == IF zm THEN minZ = 0 ELSE c.n - c.tol <= 0    \* succeeded() before any result
+      heldI == IF zm THEN {i \in I : c.zone[i] \in SeqRange(p)} ELSE SeqRange(p)
   IN /\ cfg = c
-     /\ \E p \in (IF c.minimize THEN InjSeqs(IF zm THEN 1..c.nz ELSE I, k) ELSE {<<>>}) :
-          LET heldI == IF zm THEN {i \in I : c.zone[i] \in SeqRange(p)} ELSE SeqRange(p)
-          IN /\ pending = IF already THEN <<>> ELSE p
-             /\ st = [i \in I |-> IF i \in heldI THEN (IF already THEN "notneeded" ELSE "held")
-                                  ELSE "released"]
+     /\ pending = IF already THEN <<>> ELSE p
+     /\ st = [i \in I |-> IF i \in heldI THEN (IF already THEN "notneeded" ELSE "held")
+                          ELSE "released"]
      /\ outcome = [i \in I |-> "none"]
      /\ ctx = [i \in I |-> "live"]
      /\ parentCancelled = FALSE
@@ -144,6 +148,8 @@ InitCfg(c) ==
      /\ tickPending = FALSE
      /\ calls = [i \in I |-> 0]
      /\ errRecv = {} /\ termRecv = {} /\ nTick = 0
+
+InitCfg(c) == \E p \in HeldChoices(c) : InitCfgP(c, p)
 
 Init == \E c \in Cfgs : InitCfg(c)
 
@@ -278,15 +284,15 @@ MainCtxDone ==
   /\ UNCHANGED <<cfg, st, outcome, ctx, parentCancelled, chan, numSucc, numErr, waiting, failures, pending,
                  resultsMap, remaining, tickPending, calls, errRecv, termRecv, nTick>>
 
-\* loop condition false: build the result slice, clean and cancel what is not included;
-\* plain DoUntilQuorum then cancels the derived context (every remaining context ends)
+\* loop condition false: build the result slice, clean and cancel what is not included
+\* (plain DoUntilQuorum then cancels its derived context: see CtxView)
 ReturnOK ==
   /\ mainPc = "loop" /\ Succeeded
   /\ LET inc == {i \in resultsMap : ShouldInclude(i)}
          c1  == CancelIn(ctx, Inst \ inc, "notRequired")
      IN /\ ret' = [kind |-> "ok", set |-> inc, cls |-> "-", inst |-> 0]
         /\ cleaned' = CleanAll(resultsMap \ inc)
-        /\ ctx' = IF cfg.nocancel THEN c1 ELSE CancelIn(c1, Inst, "returned")
+        /\ ctx' = c1
   /\ mainPc' = "returned"
   /\ UNCHANGED <<cfg, st, outcome, parentCancelled, chan, numSucc, numErr, waiting, failures, pending,
                  resultsMap, remaining, tickPending, calls, errRecv, termRecv, nTick>>
@@ -313,6 +319,15 @@ IntNext == \/ \E i \in Inst : Begin(i) \/ Abort(i)
 Next == EnvNext \/ IntNext
 
 Terminated == mainPc = "returned" /\ remaining = 0
+Done == Terminated /\ UNCHANGED vars      \* lets TLC's deadlock check mean "stuck before termination"
+NextD == Next \/ Done
+
+\* The context f received, as the caller sees it.  ctx[] is the view of
+\* ...WithoutSuccessfulContextCancellation.  DoUntilQuorum wraps it: `ctx, cancel := WithCancel(ctx);
+\* defer cancel()`, so whatever is still live when the call returns ends with cause context.Canceled
+\* ("returned").  Nothing reads a context of a returned instance afterwards (its goroutine is
+\* gone), so the wrapper is a pure function of the state and costs no extra states.
+CtxView(i) == IF ~cfg.nocancel /\ mainPc = "returned" /\ ctx[i] = "live" THEN "returned" ELSE ctx[i]
 
 \* nothing but the environment can move (what synctest.Wait() waits for)
 Quiet == /\ \A i \in Inst : st[i] # "released" /\ ~AbortEnabled(i)
@@ -396,16 +411,15 @@ UnusedCancelled == mainPc = "returned" => \A i \in Inst \ ret.set : ctx[i] # "li
 ReturnedNotCancelled ==
   (cfg.nocancel /\ ret.kind = "ok" /\ ~parentCancelled) => \A i \in ret.set : ctx[i] = "live"
 \* DoUntilQuorum cancels every context before it returns
-PlainAllCancelled == (~cfg.nocancel /\ mainPc = "returned") => \A i \in Inst : ctx[i] # "live"
+PlainAllCancelled == (~cfg.nocancel /\ mainPc = "returned") => \A i \in Inst : CtxView(i) # "live"
 \* a context is cancelled early only for a stated reason
 CancelJustified ==
   \A i \in Inst :
     /\ ctx[i] = "instErr" => \E j \in errRecv : IF ZoneMode THEN cfg.zone[j] = cfg.zone[i] ELSE j = i
     /\ ctx[i] = "parent" => parentCancelled
-    /\ ctx[i] \in {"notRequired", "returned"} => ret.kind = "ok"
+    /\ ctx[i] = "notRequired" => ret.kind = "ok" /\ i \notin ret.set
+    /\ ctx[i] # "returned"
     /\ ctx[i] \in {"terminal", "noQuorum"} => ret.kind = "err"
 
-\* deadlock freedom: the only states without successor are terminated ones
-NoStuck == Terminated \/ ENABLED Next
 Termination == <>Terminated
 =============================================================================
